@@ -197,9 +197,14 @@ Quiescent(st, healthy) ==
 
 -----------------------------------------------------------------------------
 (* State invariants (theorems of the guarded specification; evaluated in every state of a validated trace) *)
-Exclusive == \A p, q \in Pods : p # q /\ held[p] # NoHold /\ held[q] # NoHold /\ held[p].eni = held[q].eni =>
-                 /\ (held[p].v4 # 0 => held[p].v4 # held[q].v4)
-                 /\ (held[p].v6 # 0 => held[p].v6 # held[q].v6)
+(* Two live pods never hold one address. An address is what it is on whatever interface it sits (the cloud may give a   *)
+(* freed address to another interface). Lenient for one case the daemon cannot prevent: the address was removed from    *)
+(* one holder's interface behind the daemon's back and the cloud assigned it to ANOTHER interface.                      *)
+Exclusive == \A p, q \in Pods : p # q /\ held[p] # NoHold /\ held[q] # NoHold =>
+                 /\ (held[p].v4 # 0 /\ held[p].v4 = held[q].v4 =>
+                        held[p].eni # held[q].eni /\ (<<held[p].eni, held[p].v4>> \in rg \/ <<held[q].eni, held[q].v4>> \in rg))
+                 /\ (held[p].v6 # 0 /\ held[p].v6 = held[q].v6 =>
+                        held[p].eni # held[q].eni /\ (<<held[p].eni, held[p].v6>> \in rg \/ <<held[q].eni, held[q].v6>> \in rg))
 (* an address a pod holds stays assigned in the cloud unless it was removed remotely *)
 HeldBacked == \A p \in Pods : held[p] # NoHold =>
                  /\ (held[p].v4 # 0 => held[p].v4 \in cloud[held[p].eni].v4 \/ <<held[p].eni, held[p].v4>> \in rg)
